@@ -181,6 +181,44 @@ def constraintStmtOk (r : Req) : Stmt → Bool
 
 def constraintOk (r : Req) (stmts : List Stmt) : Bool := stmts.all (constraintStmtOk r)
 
+/-- PostgreSQL identity transitions the dialect can express -/
+def pgIdentityOk (r : Req) : Bool :=
+  match r.serverDefault, r.exDefault with
+  | .set (.identity _ _), .drop => true
+  | .set (.identity _ _), .set (.identity _ _) => true
+  | .drop, .set (.identity _ _) => true
+  | .unset, .set (.identity _ _) => true
+  | _, _ => false
+
+/-- Oracle identity transitions the dialect can express -/
+def oracleIdentityOk (r : Req) : Bool :=
+  match r.serverDefault, r.exDefault with
+  | .set (.identity _ _), .set (.computed _) => false
+  | .set (.identity _ _), _ => true
+  | .drop, .set (.identity _ _) => true
+  | .unset, .set (.identity _ _) => true
+  | _, _ => false
+
+/-- **Expressible requests** (a sufficient condition, stated without looking at the algorithm): the
+dialect has a statement for every requested change and was given what it documents as required, so
+the call must not raise:
+* server defaults are values / `None`, or an identity transition PostgreSQL resp. Oracle supports;
+* a comment change only where column comments can be altered (PostgreSQL, Oracle, MySQL family);
+* `postgresql_using` only together with `type_`;
+* MySQL family: the type (new or existing) is stated; MSSQL: likewise when nullability changes;
+* a schema-type CHECK constraint that has to be dropped has a name. -/
+def mustSucceed (d : Dialect) (r : Req) : Bool :=
+  (!isIdentity r.serverDefault r.exDefault && !isComputed r.serverDefault r.exDefault ||
+    (d == .postgresql && pgIdentityOk r) || (d == .oracle && oracleIdentityOk r)) &&
+  (!r.comment.given || d == .postgresql || d == .oracle || d.isMySQL) &&
+  (d != .postgresql || r.usingE.isNone || r.type_.isSome) &&
+  (!d.isMySQL || r.type_.isSome || r.exType.isSome) &&
+  (d != .mssql || r.nullable.isNone || r.type_.isSome || r.exType.isSome) &&
+  (r.type_.isNone || d == .sqlite || d.isMySQL ||
+    (match r.exType with
+     | some e => e.ck != some none
+     | none => true))
+
 /-- the domain the property text names: server defaults are values or `None` (no identity /
 computed constructs among the requested or stated defaults) -/
 def plainDefaults (r : Req) : Bool :=
